@@ -254,7 +254,21 @@ func runCheck(id string, o runOpts) int {
 				continue
 			}
 		}
-		r := runUnit(id, hdir, scratch, u, o, listed, deadline)
+		// every unit gets an equal share of the check's time budget
+		nunits := 0
+		for _, uu := range spec.Units {
+			if o.only == "" || uu.Name == o.only {
+				nunits++
+			}
+		}
+		if nunits < 1 {
+			nunits = 1
+		}
+		udl := time.Now().Add(time.Duration(budget/nunits) * time.Second)
+		if udl.After(deadline) {
+			udl = deadline
+		}
+		r := runUnit(id, hdir, scratch, u, o, listed, udl)
 		results = append(results, r)
 	}
 	if forkProfile != nil {
